@@ -1417,7 +1417,7 @@ def c11(ctx):
             'samples': [sched_desc(r) for r in cut[:2]]}
 
 
-@check('C12', ['C12.v'], race=True)
+@check('C12', ['C12.v', 'C12lat.v'], race=True)
 def c12(ctx):
     npos, maxd, maxk = (3, 3, 3) if ctx.quick else (10, 4, 6)
     rows, err, rc = run_sched(ctx, npos, maxd, maxk, mode='c12')
@@ -1444,6 +1444,34 @@ def c12(ctx):
             ctx.v.violation(bad[0], d, signature=sched_sig(r, 'c12'))
             if len(ctx.v.violations) >= 5:
                 break
+    # the shared state step by step against the transition system the theorems are about (Protocol.v): random interleavings of
+    # commands and search-thread progress, every poll of the stop channel preceded by a sync point
+    pn, psteps = (150, 30) if ctx.quick else (6000, 40)
+    pcases, pimpl, pmodel, praw, pnotes, pstats = line_stream(ctx, 'proto', 'pr12', [pn, psteps])
+    proto_bad = 0
+    for c, a, m in zip(pcases, pimpl, pmodel):
+        if 'PROBLEM' in a:
+            proto_bad += 1
+            ctx.v.violation('command-blocked-or-search-thread-stuck', {'schedule_tokens': c.split('\t')[1], 'observation': a.split('PROBLEM', 1)[1].strip(),
+                            'how': 'verifh proto (seed %s); tokens: go/stop/isready/other = commands, enter/poll/complete/print = search-thread steps' % common.seed()},
+                            signature=sig('c12proto', c[:300]))
+        elif a != m:
+            proto_bad += 1
+            oa, om = a.split('|'), m.split('|')
+            k = next((i for i in range(min(len(oa), len(om))) if oa[i] != om[i]), min(len(oa), len(om)))
+            toks = c.split('\t')[1].split(' ')
+            upto, seen = [], 0
+            for t in toks:
+                upto.append(t)
+                if t == 'obs':
+                    seen += 1
+                    if seen > k:
+                        break
+            ctx.corr_broken.append({'stream': 'PROTO', 'tokens_up_to_the_first_difference': ' '.join(upto), 'observation_index': k,
+                                    'fields': 'running,pending_stop,bestmoves,readyoks,interrupted,phase',
+                                    'engine': oa[k] if k < len(oa) else None, 'model': om[k] if k < len(om) else None})
+        if proto_bad >= 5:
+            break
     # promptness of stop where the search thread is NOT at a sync point: capture-heavy positions whose quiescence trees run for
     # minutes; `go infinite`, stop after 50-400 ms, the bestmove must follow within the bound
     bound = 3.0
@@ -1476,8 +1504,11 @@ def c12(ctx):
         if races:
             ctx.v.violation('data-race-between-command-and-search-thread', {'race_detector_report': err_r[:3000], 'schedules_run': len(rows2)}, signature='c12race')
     ctx.assumptions.append('Go memory model / scheduler below the granularity of shared operations is not modelled (label: partial); race detector run in the thorough tier')
-    return {'evaluations': len(rows) + 1 + len(ljobs), 'distinct_nontrivial': len(nontrivial), 'stop_latency_searches': len(ljobs),
-            'rule': 'stop latency on capture-heavy positions (real binary, stop 50-400 ms after go infinite, bestmove within 3 s); interleavings: command words {stop, isready, stop stop, isready stop, stop isready} x search-thread phases {entered, after root move k of iteration d, iteration '
+    return {'evaluations': len(rows) + 1 + len(ljobs) + len(pcases), 'distinct_nontrivial': len(nontrivial), 'stop_latency_searches': len(ljobs),
+            'protocol_schedules_vs_model': len(pcases), 'protocol_schedule_stats': pstats, 'protocol_state_mismatches': proto_bad,
+            'rule': 'PROTO: random interleavings of go/stop/isready/other with search-thread progress, shared state (running flag, pending stop, bestmoves, readyoks, '
+                    'interruption flag, phase) after every step against Protocol.step; stop latency on capture-heavy positions (real binary, stop 50-400 ms after go infinite, '
+                    'bestmove within 3 s); interleavings: command words {stop, isready, stop stop, isready stop, stop isready} x search-thread phases {entered, after root move k of iteration d, iteration '
                     'done, before bestmove, after bestmove} (d<=%d, k<%d) x go form, then isready and another go; every command has a liveness deadline; plus commands with no search '
                     'alive; non-trivial = distinct (phase, command word, go form)' % (maxd, maxk),
             'schedules': len(rows), 'race_detector_reports': races, 'traces_validated_against_impl': len(rows),
